@@ -30,7 +30,7 @@ CLAIMED = {
     "C03": dict(engine="coq-seq", design="DESIGN.md 6 C03",
                 technique="machine-checked proof in Coq (per-operator induction over arbitrary interleavings of the sources' events, with the StreamController bookkeeping invariant) + three-way correspondence impl = Seq = MLoc and the specification oracle on every implementation observation",
                 text="Theorems C03_merge / C03_zip / C03_amb (any number of sources) and C03_take_until / C03_skip_until / C03_sample: for EVERY sequential interleaving of the sources' events (unbounded, ill-formed sources included) "
-                     "the operator's handler table delivers exactly what its ReactiveX definition assigns to that interleaving; C03_concat / C03_on_error_resume_next: the same for the two operators that subscribe further sources later (the local semantics registers the new observer when the handler asks for the subscription). Partial: flat_map, switch_on_next, ready_set_go and nestings with C02 operators "
+                     "the operator's handler table delivers exactly what its ReactiveX definition assigns to that interleaving; C03_concat / C03_on_error_resume_next / C03_flat_map: the same for the operators that subscribe further sources later (the local semantics registers the new observer when the handler asks for the subscription; flat_map for any selector: one more source per source item, unbounded). Partial: switch_on_next, ready_set_go and nestings with C02 operators "
                      "are decided by the correspondence impl = sequential machine (no operator theorem); combine_latest (D9) and sequence_equal (D10) are recorded known findings with witnesses C03_known_D9_witness / C03_known_D10_witness. "
                      "Tie: all interleavings of two hot sources up to length 4 (5), random ones for 3-4 sources, cold sources subscribed in the crate's order."),
     "C04": dict(engine="coq-seq", design="DESIGN.md 6 C04",
